@@ -136,6 +136,16 @@ def edit_law(run, y: Any, edit: Callable[[Any], None], write: Callable[[Any], An
              snapper: Callable[[Any], Any]) -> None:
     """History: the value that was read back is edited through its public attributes, written and read again: the output
     describes the value as it is NOW (nothing is remembered from the parse or from the first write)."""
+    # the bytes of the unedited value, read once more AFTER the first value read from them was edited: the reader hands out
+    # nothing that it shares with a later call
+    w0 = _call('write', lambda: write(y))
+    y_first = _call('read', lambda: read(w0), w0)
+    pristine = snapper(y_first)
+    _call('edit', lambda: edit(y_first))
+    d0 = G.first_diff(pristine, _call('read-again', lambda: snapper(read(w0)), w0))
+    if d0:
+        raise Failure('edit', f'reading the same bytes again after the first value read from them was edited gives another value at {d0["path"]}: '
+                              f'want {d0["want"]!r} got {d0["got"]!r}', {'diff': d0})
     _call('edit', lambda: edit(y))
     want = snapper(y)
     w = _call('write-after-edit', lambda: write(y))
